@@ -9,7 +9,11 @@ mkdir -p build/bin evidence replays
 cp /repo/go.sum go.sum
 ids=$(python3 -c "
 import json
-print(' '.join(sorted({c['property_id'].lower() for c in json.load(open('MANIFEST.json'))['checks']})))")
+import re
+ids=set()
+for c in json.load(open('MANIFEST.json'))['checks']:
+    ids.update(x.lower() for x in re.findall(r'\./check (\w+)', c['quick_cmd']))
+print(' '.join(sorted(ids)))")
 rc=0
 (cd tools/vinst && go build -o "$ROOT/build/bin/vinst" .) || rc=2
 for id in $ids; do
